@@ -702,8 +702,9 @@ def run(rep, tier):
     else:
         plan.append(('full lattice (6 dtypes x nVar 1..3 x dims 0..3 x sizes 1..3), all histories of length <= 2', lattice(nvars), 2))
         plan.append(('full lattice with special coordinates, all histories of length <= 1', [c for c in lattice(nvars, cvs=(1,)) if c['cls'] == 'Rectilinear'], 1))
-        plan.append(('6 configurations (one per dtype, Scalar / 2-d Rectilinear alternating), all histories of length <= 5', deep_configs()[0], 5))
-        plan.append(('the 6 complementary configurations, all histories of length <= 4', deep_configs()[1], 4))
+        d5 = [c for c in deep_configs()[0] if c['dt'] in (0, 3, 5)]
+        plan.append(('3 configurations (float64 Scalar nVar=2, clongdouble and complex64 Rectilinear 2x3), all histories of length <= 5', d5, 5))
+        plan.append(('the 9 other deep configurations (per dtype one Scalar, one 2-d Rectilinear), all histories of length <= 4', [c for c in deep_configs()[0] + deep_configs()[1] if c not in d5], 4))
         child_every = 16
     units = []
     bounds = []
@@ -765,11 +766,11 @@ def run(rep, tier):
             }
         )
     else:
-        cunits = [(c, n, 'ah' if n == 0 else 'a') for c in cl if len(c['grid']) <= 2 for n in (0, 1, 2)]
+        cunits = [(c, n, 'ah' if n == 0 else 'a') for c in cl if len(c['grid']) <= 2 for n in (0, 1, 2) if n < 2 or len(c['grid']) <= 1]
         cunits += [(c, 0, 'h') for c in cl if len(c['grid']) == 3] + [(c, 1, 'a') for c in cl if len(c['grid']) == 3 and c['nVar'] == 1]
         bounds.append(
             {
-                'space': 'C: (dims<=2, nVar 1..3) x n in {0,1,2} and (dim 3, nVar 1) x n=1: every byte of the (n+1)-th append; header creation: full lattice, every byte; '
+                'space': 'C: (dims<=2, nVar 1..3) x n in {0,1} (n=2 for dims<=1) and (dim 3, nVar 1) x n=1: every byte of the (n+1)-th append; header creation: full lattice, every byte; '
                 '5% of the states (every 20th byte offset and both ends) recovered again in a fresh process',
                 'configurations': len(cl),
             }
@@ -857,13 +858,13 @@ def run(rep, tier):
     cov['distinct_nontrivial'] = H['nontrivial'] + C['torn_states'] + B['nontrivial'] + sum(1 for c in lcases if c[0] != 'rerun_t0')
     cov['rule'] = (
         'H: every word over {A,O,P,R,N,Y} up to the stated length per configuration, run from an empty directory; non-trivial = contains an append and a re-open or a second initialize (distinct (configuration, word) pairs counted). '
-        'C: every byte offset k of the interrupted write; non-trivial = 0 < k < length (distinct (configuration, n, k)). '
+        'C: every byte offset k of the interrupted write; non-trivial = 0 < k < length (distinct (configuration, n, k, plain / zero-filled), counted while enumerating, in-process pass only). '
         'B: every (nProcs, grid, algo, order) with all ranks; non-trivial = nProcs >= 2. L: every listed controller history; non-trivial = involves a resume. '
         'VERIF_SEED only rotates which pool value lands in which item/record and shuffles the work distribution.'
     )
     cov['samples'] = samples
     cov['bounds_completed'] = bounds
-    cov['exhaustive'] = True
+    cov['exhaustive'] = not any(k.startswith('INCOMPLETE') for k in l_out)  # every listed space is enumerated completely, no time caps
     cov['histories'] = H
     cov['history_outcomes_not_judged'] = outcomes
     cov['special_values_round_tripped'] = {d: sorted(s) for d, s in sorted(labels.items())}
